@@ -79,6 +79,22 @@ def impl_replay(job):
                     res = {"ok": False, "conv": conv, "what": "draws", "detail": "consumed %d draws, the behaviour has %d" % (used, len(draws))}
                 else:
                     res = {"ok": True, "conv": conv}
+                    if not (job["via"] == 2 and uniform):
+                        # the same behaviour once more through the SAME interface and simulator objects: a second
+                        # simulation starts from the initial condition again and carries nothing over from the first
+                        brandom.py_verif_script(draws + [0.5] * 4)
+                        sim = SSASimulator()
+                        g1 = sim.py_simulate(itf, tp).py_get_result()
+                        brandom.py_verif_script(draws + [0.5] * 4)
+                        g2 = sim.py_simulate(itf, tp).py_get_result()
+                        brandom.py_verif_script(None)
+                        for tag, g in (("second", g1), ("third (same simulator object)", g2)):
+                            rows2 = [[float(g[i, c]) for c in cols] for i in range(g.shape[0])]
+                            if rows2 != want:
+                                k = next((i for i in range(min(len(rows2), len(want))) if rows2[i] != want[i]), -1)
+                                res = {"ok": False, "conv": conv, "what": "rows-repeated-run",
+                                       "detail": "%s run on the same interface, row %d: got %r expected %r" % (tag, k, rows2[k] if k >= 0 else None, want[k] if k >= 0 else None)}
+                                break
                     break
         except BaseException as e:  # noqa
             brandom.py_verif_script(None)
